@@ -168,6 +168,64 @@ structure Cfg.GoodAccess (c : Cfg) : Prop where
   infoGoneDenied : c.infoGoneDenied = false
   wrapPermAD : c.wrapPermAD = true
   wrapZombieFirst : c.wrapZombieFirst = true
+  /-- seeded round 5: in both strict helpers EVERY `os.stat` failure other than PermissionError
+      (ENOENT, ENOTDIR, ELOOP, ENAMETOOLONG, ESTALE, EIO, …: whatever class CPython raises) is answered
+      `False`, and the clause list agrees with the two `…DeniedRaises` facts about PermissionError -/
+  isfileOthersFalse : allOthersFalse c.isfileHandlers = true
+  existsOthersFalse : allOthersFalse c.existsHandlers = true
+  isfilePermCoherent : statFalse c.isfileHandlers clsPermissionError = false
+  existsPermCoherent : statFalse c.existsHandlers clsPermissionError = false
+
+/-! ### the strict stat helpers: every failure other than PermissionError is answered `False` -/
+
+theorem allOthersFalse_spec (hs : List (List Bytes × Bool)) (h : allOthersFalse hs = true)
+    (cls : Bytes) (hc : cls ≠ clsPermissionError) : statAnswer hs cls = some true := by
+  induction hs with
+  | nil => simp [allOthersFalse] at h
+  | cons x hs ih =>
+    obtain ⟨cs, a⟩ := x
+    unfold allOthersFalse at h
+    unfold statAnswer
+    by_cases hall : (cs.any fun c => catchAll.contains c) = true
+    · simp only [hall, if_true] at h
+      have : catches cs cls = true := by
+        unfold catches
+        rw [hall, Bool.or_true]
+      simp [this, h]
+    · simp only [hall, Bool.false_eq_true, if_false, Bool.and_eq_true, Bool.or_eq_true] at h
+      by_cases hcat : catches cs cls = true
+      · have hmem : cs.contains cls = true := by
+          simp only [catches, Bool.or_eq_true] at hcat
+          rcases hcat with h1 | h1
+          · exact h1
+          · exact absurd h1 hall
+        rcases h.1 with ha | hperm
+        · simp [hcat, ha]
+        · exfalso
+          have hm : cls ∈ cs := by simpa using hmem
+          have := List.all_eq_true.mp hperm cls hm
+          exact hc (by simpa using this)
+      · simp only [hcat, Bool.false_eq_true, if_false]
+        exact ih h.2
+
+theorem statEscapes_good (hs : List (List Bytes × Bool)) (h : allOthersFalse hs = true) (fs : FS) (p : Bytes) :
+    statEscapes hs fs p = none := by
+  unfold statEscapes
+  have hfnf : statFalse hs clsFileNotFoundError = true := by
+    simp [statFalse, allOthersFalse_spec hs h clsFileNotFoundError (by decide)]
+  cases hse : fs.statErr p with
+  | none => simp [hfnf]
+  | some f => simp [statFalse, allOthersFalse_spec hs h f.cls f.notPerm]
+
+theorem pyReadlinkEscapes_good (c : Cfg) (ha : c.GoodAccess) (fs : FS) (raw : Bytes) :
+    pyReadlinkEscapes c fs raw = none := by
+  unfold pyReadlinkEscapes
+  simp [statEscapes_good _ ha.existsOthersFalse]
+
+theorem isfileEscapes_good (c : Cfg) (ha : c.GoodAccess) (fs : FS) (path : Bytes) :
+    isfileEscapes c fs path = none := by
+  unfold isfileEscapes
+  simp [statEscapes_good _ ha.isfileOthersFalse]
 
 def posLine (pos : Nat) : Bytes := [112, 111, 115, 58] ++ [9] ++ renderDec pos
 def flagsLine (flags : Nat) : Bytes := [102, 108, 97, 103, 115, 58] ++ [9] ++ (48 :: renderRadix octal flags)
@@ -507,7 +565,7 @@ theorem scanOne_render (c : Cfg) (hg : c.GoodScan) (ha : c.GoodAccess)
       else .skip := by
     intro info
     unfold scanOne
-    simp only
+    simp only [pyReadlinkEscapes_good c ha, isfileEscapes_good c ha]
     rw [← hden, ← hcond, hdl]
     cases pyReadlinkDenied c fs (linkText d.kind) <;>
       cases ((startsWith c.absPrefix (pyReadlink c fs (linkText d.kind)) || !c.absFirst) &&
@@ -848,6 +906,44 @@ theorem listed_filter_open (fs : FS) (t : List Fd) :
     | some st =>
       have : listed fs d = none := by rw [listed_eq, hc]
       simp [hc, this, ih]
+
+/-- descriptors whose target cannot be stat'ed do not disturb the report about the others -/
+theorem listed_filter_statable (fs : FS) (hco : StatCoherent fs) (t : List Fd) :
+    t.filterMap (listed fs) = (t.filter fun d => !targetUnstatable fs d).filterMap (listed fs) := by
+  induction t with
+  | nil => rfl
+  | cons d ds ih =>
+    cases hu : targetUnstatable fs d with
+    | false => simp only [List.filter_cons, hu, Bool.not_false, if_true, List.filterMap_cons, ih]
+    | true =>
+      have : listed fs d = none := by
+        unfold targetUnstatable at hu
+        unfold listed
+        cases hk : d.kind with
+        | regular path del =>
+          rw [hk] at hu
+          simp only at hu
+          cases d.closesAt <;> simp [(hco path hu).1]
+        | socket i => cases d.closesAt <;> rfl
+        | pipe i => cases d.closesAt <;> rfl
+        | anon n => cases d.closesAt <;> rfl
+        | device q => cases d.closesAt <;> rfl
+        | relative q => cases d.closesAt <;> rfl
+      simp [hu, this, ih]
+
+/-! ### the errno of a failing `os.stat` never matters (seeded round 5) -/
+
+theorem scanOne_statErr (c : Cfg) (ha : c.GoodAccess) (fs : FS) (se : Bytes → Option StatFail) (e : Entry) :
+    scanOne c { fs with statErr := se } e = scanOne c fs e := by
+  unfold scanOne
+  simp only [pyReadlinkEscapes_good c ha, isfileEscapes_good c ha]
+  rfl
+
+theorem scan_statErr (c : Cfg) (ha : c.GoodAccess) (fs : FS) (se : Bytes → Option StatFail) (es : List Entry) :
+    scan c { fs with statErr := se } es = scan c fs es := by
+  induction es with
+  | nil => rfl
+  | cons e es ih => simp only [scan, scanOne_statErr c ha fs se e, ih]
 
 /-! ### /proc/<pid>/io -/
 
